@@ -518,8 +518,15 @@ def strload(val: str | bytes | bytearray | memoryview) -> PythonValueT:
     Args:
         val: The string-like input to be decoded.
     """
+    # (Like `load()`: what is no text is handed back as it is.)
+    if not inspection.istexttype(val.__class__):
+        return val  # type: ignore[return-value]
     # Decode first: the memo is keyed by the text (bytearray/writable memoryview aren't hashable).
     text = decode(val)
+    # The parsers read exact `str` only, and text which is no document comes back as the
+    #   object it is: an instance of a subclass would be remembered for every equal text.
+    if text.__class__ is not str:
+        text = str.__str__(text)
     # Running out of stack or memory says something about this call, not about the text:
     #   it is never remembered.
     try:
